@@ -47,7 +47,8 @@ Definition do_op (fuel : nat) (o : op) (st : state) : obs * state :=
   let e := st_eng st in
   match o with
   | ORegister name sty d =>
-      (otag "ok" [], mkState (mkEngine (e_db e) (register (e_ctx e) name sty d)) (st_susp st))
+      if register_raises sty d then (otag "raised" [], st)
+      else (otag "ok" [], mkState (mkEngine (e_db e) (register (e_ctx e) name sty d)) (st_susp st))
   | OLoad sc ow =>
       match load (e_ctx e) sc ow with
       | None => (otag "raised" [], st)
